@@ -486,6 +486,89 @@ def _filter_model(eng, args, kwargs):
     return Iter(PureSeq(flt.N(sz, *P), lambda m: get(Sym(flt.K(sz, *P, to_z3(m, "int")), "int")), ref=sz))
 
 
+# ------------------------------------------------------------------------------- sets of references / functools.reduce
+class SymSet(Opaque):
+    """a FINITE set of references given by a quantifier-free membership term `member(x)` (built from the witness
+    functions of the lists it was made of).  `sources`: the lists (PList) whose elements may be members."""
+
+    def __init__(self, member, sources):
+        super().__init__(z3.Int(fresh_name("set")), SET_PROTO)
+        self.member, self.sources = member, list(sources)
+
+    def __pyvc_snapshot__(self, memo):
+        return self
+
+
+def list_witness(eng, L):
+    """ghost witness IDX of `x in L` for the symbolic list L:  x in L  <->  0 <= IDX(x) < len(L) and L[IDX(x)] == x
+    (IDX(x) = the first position holding x, or -1): definitional, and every element is a member."""
+    key = ("set-witness", L.uid, L.cols[0].get_id(), z3.simplify(zint(L.n)).get_id())
+    if key not in eng.ghost:
+        idx = z3.Function(fresh_name("idx_in"), _I, _I)
+        j = z3.Int(fresh_name("sj"))
+        n, col = zint(L.n), L.cols[0]
+        eng.assume(z3.ForAll([j], z3.Implies(z3.And(j >= 0, j < n), z3.And(idx(z3.Select(col, j)) >= 0, idx(z3.Select(col, j)) < n,
+                                                                           z3.Select(col, idx(z3.Select(col, j))) == z3.Select(col, j))), patterns=[z3.Select(col, j)]))
+        eng.ghost[key] = idx
+        eng.ghost.setdefault("set-witnesses", []).append((L, idx, n, col))
+    idx = eng.ghost[key]
+    n, col = zint(L.n), L.cols[0]
+    return lambda x: z3.And(idx(x) >= 0, idx(x) < n, z3.Select(col, idx(x)) == x)
+
+
+def _set_model(eng, args, kwargs):
+    if not args:
+        raise Unsupported("set() of nothing")
+    a = args[0]
+    if isinstance(a, SymSet):
+        return SymSet(a.member, a.sources)
+    if isinstance(a, PList) and a.items is None and not a.tup and a.kinds[0] in ("ref", "int"):
+        used(eng, "set(list): x in set(L) <-> x occurs in L (ghost witness: the first position holding x)")
+        return SymSet(list_witness(eng, a), [a])
+    raise Unsupported("set() of this value")
+
+
+def _set_intersection(eng, recv, args, kwargs):
+    used(eng, "set.intersection: x in (A & B) <-> x in A and x in B")
+    if len(args) != 1 or not isinstance(args[0], SymSet):
+        raise Unsupported("set.intersection form")
+    other = args[0]
+    return SymSet(lambda x: z3.And(recv.member(x), other.member(x)), recv.sources + other.sources)
+
+
+def _set_to_list(eng, recv):
+    """list(S) of a finite set: every member exactly once, in an UNSPECIFIED order (weaker than any real iteration order,
+    which depends on the hash seed for strings)"""
+    used(eng, "list(set): an enumeration of the members, each exactly once, order unconstrained (ghost POS: member -> its position)")
+    L = PList.fresh("ref", name="enum")
+    pos = z3.Function(fresh_name("pos_in"), _I, _I)
+    j, j2, x = z3.Int(fresh_name("ej")), z3.Int(fresh_name("ej2")), z3.Int(fresh_name("ex"))
+    n, col = zint(L.n), L.cols[0]
+    eng.assume(n >= 0)
+    eng.assume(z3.ForAll([j], z3.Implies(z3.And(j >= 0, j < n), z3.And(recv.member(z3.Select(col, j)), pos(z3.Select(col, j)) == j)), patterns=[z3.Select(col, j)]))
+    eng.assume(z3.ForAll([x], z3.Implies(recv.member(x), z3.And(pos(x) >= 0, pos(x) < n, z3.Select(col, pos(x)) == x)), patterns=[pos(x)]))
+    eng.ghost.setdefault("set-enumerations", []).append((recv, L, pos))
+    return L
+
+
+SET_PROTO = {"intersection": _set_intersection, "__list__": _set_to_list}
+
+
+def _reduce_model(eng, args, kwargs):
+    """functools.reduce(f, seq[, initial]) over a sequence of concrete length: the left fold, f run as real code"""
+    f, seq = args[0], args[1]
+    items = models.iterate_concrete(eng, seq)
+    if len(args) > 2:
+        acc = args[2]
+    else:
+        if not items:
+            raise ProgExc(TypeError, "reduce() of empty iterable with no initial value")
+        acc, items = items[0], items[1:]
+    for x in items:
+        acc = eng.call(f, [acc, x], {})
+    return acc
+
+
 def install():
     import os
 
@@ -495,3 +578,7 @@ def install():
     models.EXTRA_MODELS[os.path.splitext] = _path_splitext
     models.EXTRA_MODELS[os.path.exists] = _path_exists
     models.EXTRA_MODELS[filter] = _filter_model
+    models.EXTRA_MODELS[set] = _set_model
+    import functools
+
+    models.EXTRA_MODELS[functools.reduce] = _reduce_model
